@@ -1,7 +1,8 @@
 /-
   C19 (termination clause) — Brent root finding terminates with an explicit iteration bound on
-  every bracket bounded away from 0 when ε ≥ 1/2 (the noisy solver uses ε = 1), for EVERY
-  ordinate sequence; and why neither hypothesis can be dropped.
+  every bracket with `0 < start` (bound in terms of stop/start) or `0 ≤ start` (bound in terms of
+  stop/tol) when ε ≥ 1/2 (the noisy solver uses ε = 1), for EVERY ordinate sequence; and why
+  neither hypothesis (no negative abscissae, ε not small) can be dropped.
 
   `Props/C19.lean` proves termination only when bisection is forced at every step
   (`terminates_forced_bisection`: `H − L < 2 ε L`). Here interpolated steps are allowed.
